@@ -251,7 +251,7 @@ func generateMore(suite string, seed uint64, i int, r *rng, id string, g gp) *Ca
 		}
 		// repeated and monitor-toggled calls are compared bit for bit by the harness: that needs no exact model
 		return &Case{ID: id, Op: "layout", Cfg: cfg, Edges: edges, Arg: map[string]any{"repeat": 2.0, "montoggle": 1.0}}
-	case "c11-deep", "e2e-big": // more than 64 layers (a long spine with branches, rejoining chords and pendants) or very wide layers
+	case "c11-deep", "e2e-big", "e2e-wide": // more than 64 layers (a long spine with branches, rejoining chords and pendants) or very wide layers
 		var es [][2]int
 		n := 0
 		if suite == "e2e-big" && r.chance(1, 5) { // a handful of nodes joined by 60..200 parallel, antiparallel and self-loop edges
@@ -262,6 +262,28 @@ func generateMore(suite string, seed uint64, i int, r *rng, id string, g gp) *Ca
 					b = (a + 1) % n
 				}
 				es = append(es, [2]int{a, b})
+			}
+		} else if suite == "e2e-wide" { // layers of more than 256 nodes: 257..330 sources into a hub, the hub into as many sinks
+			w := r.rangeIn(257, 290)
+			for i := 1; i <= w; i++ {
+				es = append(es, [2]int{i, 0})
+			}
+			n = w + 1
+			if r.chance(1, 2) {
+				w2 := r.rangeIn(257, 290)
+				for i := 0; i < w2; i++ {
+					es = append(es, [2]int{0, n})
+					n++
+				}
+			}
+			for x := r.rangeIn(0, 6); x > 0; x-- { // a few more edges between the wide layers and new nodes
+				a := 1 + r.intn(n-1)
+				if r.chance(1, 2) {
+					es = append(es, [2]int{n, a})
+				} else {
+					es = append(es, [2]int{a, n})
+				}
+				n++
 			}
 		} else if suite == "c11-deep" || r.chance(2, 3) {
 			L := r.rangeIn(66, 130)
